@@ -190,7 +190,7 @@ func c04Mutants(rng *rand.Rand, p cashu.Proof, out client.Output, sig cashu.Blin
 }
 
 func runC04(r *core.Run) {
-	r.Rule("cases = (keyset, denomination, secret kind) valid proofs really minted by the mint, each with every single-field value mutation (amount, id, C, secret) presented alone / after / before a valid proof, through Swap, MeltTokens and MeltTokens on a quote for the mint's own invoice (settled inside the mint); non-trivial = distinct (keyset#, denomination, mutation class, position, path) tuples for which the mint gave a verdict; valid proofs must be accepted, mutants rejected")
+	r.Rule("cases = (keyset, denomination, secret kind: hex, 512 bytes, JSON, a NUT-11 key lock and a NUT-14 hash lock with their valid witness) valid proofs really minted by the mint, each with every single-field value mutation (amount, id, C, secret) presented alone / after / before a valid proof, through Swap, MeltTokens and MeltTokens on a quote for the mint's own invoice (settled inside the mint); non-trivial = distinct (keyset#, denomination, mutation class, position, path) tuples for which the mint gave a verdict; valid proofs must be accepted, mutants rejected")
 	r.Assume("refcrypto (math/big implementation of NUT-00) decides which proofs are genuine; SQLite and the LN model are trusted")
 	thorough := !quick(r)
 	rng := r.Rng("c04")
@@ -212,6 +212,7 @@ func runC04(r *core.Run) {
 		ks  int
 	}
 	var coins []coin
+	lkeys := newLockKeys(rng)
 	mintCoins := func(ks int, secretKinds []string, copies int) {
 		act := env.Active()
 		for _, d := range denoms {
@@ -226,6 +227,12 @@ func runC04(r *core.Run) {
 						secret = secret + client.RandHex(rng, 4) // keep unique
 					case "json":
 						secret = fmt.Sprintf(`["X",{"nonce":"%s","data":"d","tags":[]}]`, client.RandHex(rng, 8))
+					case "p2pk":
+						// a real NUT-11 lock to a key the harness holds; the proof carries its valid witness, so
+						// the spending condition is met by the genuine proof and by every mutant of amount / id / C
+						secret = lockCfg{Kind: "P2PK", Data: pubHex(lkeys.Lock), NSigs: -1, Nonce: client.RandHex(rng, 16)}.Secret()
+					case "htlc":
+						secret = lockCfg{Kind: "HTLC", Data: lkeys.Hash, NSigs: -1, Nonce: client.RandHex(rng, 16)}.Secret()
 					}
 					o := client.NewOutput(rng, act.Id, d, secret)
 					q, err := env.RequestMintQuote(d, "")
@@ -244,12 +251,18 @@ func runC04(r *core.Run) {
 						return
 					}
 					p, _ := client.Unblind(o, sigs[0], act)
+					switch kind {
+					case "p2pk":
+						p.Witness = buildWitness([]byte(secret), []sigSpec{{key: lkeys.Lock}}, nil, false)
+					case "htlc":
+						p.Witness = buildWitness([]byte(secret), nil, &lkeys.Preimage, false)
+					}
 					coins = append(coins, coin{p, o, sigs[0], ks})
 				}
 			}
 		}
 	}
-	kinds := []string{"hex", "512", "json"}
+	kinds := []string{"hex", "512", "json", "p2pk", "htlc"}
 	copies := 4 // alone-swap, after, before, melt
 	mintCoins(0, kinds, copies)
 	if err := env.Reload(true, 0); err != nil {
